@@ -4,6 +4,7 @@ import FinamModel.Translated.Output__clear_data
 import FinamModel.Translated.Output_get_data
 import FinamModel.Static
 import FinamModel.Props.C09
+import FinamModel.Props.C08
 import FinamModel.Props.TrCommon
 /-
   Equivalence of the translated `Output._interpolate` (regenerated from `finam/sdk/output.py`) with the
@@ -55,6 +56,22 @@ theorem tr_Output__interpolate {α} (p : Int × α) (r : List (Int × α)) (t : 
         simp [h2, hne, this]
       · have : t = p.1 := by omega
         simp [this]
+
+/-- **C08 on the code, nearest publication.**  Whatever the *translated* `Output._interpolate` serves for `t` from a
+    sorted history is the payload of a publication whose time is nearest to `t` among everything retained. -/
+theorem code_interpolate_nearest {α} (p : Int × α) (r : List (Int × α)) (t : Int) (v : α)
+    (hs : Sorted (toE (p :: r))) (h : Tr.Output__interpolate (p :: r) t = .ok v) :
+    ∃ e ∈ toE (p :: r), e.v = v ∧ ∀ e' ∈ toE (p :: r), dist t e.t ≤ dist t e'.t := by
+  rw [tr_Output__interpolate] at h
+  exact lookup_nearest _ t v hs h
+
+/-- **C08 on the code, served range.**  The translated `Output._interpolate` serves exactly the requests between the
+    oldest retained and the newest publication and refuses everything outside with a time error. -/
+theorem code_interpolate_range {α} (p : Int × α) (r : List (Int × α)) (t : Int) :
+    (p.1 ≤ t ∧ t ≤ lastT ⟨p.1, p.2⟩ (toE r) → ∃ v, Tr.Output__interpolate (p :: r) t = .ok v) ∧
+    (t < p.1 ∨ lastT ⟨p.1, p.2⟩ (toE r) < t → Tr.Output__interpolate (p :: r) t = .error .timeErr) := by
+  rw [tr_Output__interpolate]
+  exact lookup_range ⟨p.1, p.2⟩ (toE r) t
 
 end Finam.Props.C08
 
